@@ -3,7 +3,7 @@
    the CONTENT of the tables, so this file compiles for any tree (the correspondence shards only need this file);
    the sweeps that can fail are in C12tab.v, the theorems in C12.v. *)
 From Coq Require Import String List Bool ZArith. Import ListNotations. Open Scope string_scope.
-Require Import Registry Registryproof Attr Attrproof AttrSpec CtorGuardSpec Gen_Registry Gen_Ctors.
+Require Import Registry Registryproof Attr Attrproof AttrSpec CtorGuardSpec RegistrySpec Gen_Registry Gen_Ctors.
 
 (* ---------------------------------------------------------------- registry *)
 
@@ -41,6 +41,18 @@ Definition call_ok (tc : string * string) : bool :=
 Definition reachable (ct : string * string) : bool :=
   existsb (fun p => String.eqb (snd p) (fst ct)) model_registry
   || existsb (fun x => String.eqb (fst x) (fst ct)) documented_first_registrants.
+
+(* the LIVE registry (the dict of the implementation, not the replay of the recorded calls) against the reference table and
+   against the classes found by walking the class tree *)
+Definition live_class_of (qname : string) : option string :=
+  match lxml_tag namespaces qname with Some lt => assoc lt live_registry | None => None end.
+Definition reference_ok (x : string * string) : bool :=
+  match live_class_of (fst x) with Some c => String.eqb c (snd x) | None => false end.
+Definition tagged_ok (x : string * string) : bool :=       (* x = (class, its _tag) *)
+  match live_class_of (snd x) with
+  | Some c => String.eqb c (fst x) || existsb (fun e => String.eqb (fst e) (fst x) && String.eqb (snd e) c) tagged_exceptions
+  | None => existsb (fun e => String.eqb (fst e) (fst x) && String.eqb (snd e) "") tagged_exceptions
+  end.
 
 (* ---------------------------------------------------------------- property definitions *)
 
